@@ -178,7 +178,8 @@ def NoClientCancel : Act → Prop
   | _ => True
 
 /-- every future handed out is terminal or still has its job -/
-def Held (s : St) : Prop := s.cancelling = [] ∧ ∀ f ∈ s.submitted, f ∈ s.done ∨ ∃ j ∈ s.jobs, j.fut = f
+def Held (s : St) : Prop :=
+  s.cancelling = [] ∧ ∀ f ∈ s.submitted, f ∈ s.done ∨ (∃ j ∈ s.jobs, j.fut = f) ∨ (∃ nj, s.submitting = some nj ∧ nj.fut = f)
 
 theorem held_init : Held init := by simp [Held, init]
 
@@ -186,7 +187,7 @@ theorem mem_erase_ne {l : List Job} {j x : Job} (hx : x ∈ l) (hne : x ≠ j) :
 
 theorem held_step (s : St) (a : Act) (s' : St) (hg : NoClientCancel a) (hi : Held s) (h : step s a = some s') : Held s' := by
   obtain ⟨hc, hh⟩ := hi
-  have nohold : ∀ f, holdsF s f = false := by intro f; simp [holdsF, hc]
+  have nohold : ∀ f, cancellingF s f = false := by intro f; simp [cancellingF, hc]
   cases a with
   | cancelScan f => exact absurd hg (by simp [NoClientCancel])
   | submit f =>
@@ -198,34 +199,48 @@ theorem held_step (s : St) (a : Act) (s' : St) (hg : NoClientCancel a) (hi : Hel
       intro g hg2; simp only [List.mem_append, List.mem_singleton] at hg2
       cases hg2 with
       | inl hg2 =>
-        cases hh g hg2 with
-        | inl hd => exact Or.inl hd
-        | inr hj => obtain ⟨j, hj, hjf⟩ := hj; exact Or.inr ⟨j, List.mem_append_left _ hj, hjf⟩
-      | inr hg2 => subst hg2; exact Or.inr ⟨_, List.mem_append_right _ (List.mem_singleton.mpr rfl), rfl⟩
+        rcases hh g hg2 with hd | ⟨j, hj, hjf⟩ | hw
+        · exact Or.inl hd
+        · exact Or.inr (Or.inl ⟨j, List.mem_append_left _ hj, hjf⟩)
+        · exact Or.inr (Or.inr hw)
+      | inr hg2 => subst hg2; exact Or.inr (Or.inl ⟨_, List.mem_append_right _ (List.mem_singleton.mpr rfl), rfl⟩)
   | submitNow j =>
     simp only [step] at h
     split at h
-    · split at h
+    · rename_i hgd
+      obtain ⟨_, _, _, _, _, hnone⟩ := hgd
+      split at h
       · rename_i hd; cases h
         refine ⟨hc, ?_⟩
         intro g hg2
-        cases hh g hg2 with
-        | inl h => exact Or.inl h
-        | inr hj =>
-          obtain ⟨x, hx, hxf⟩ := hj
-          by_cases e : x = j
+        rcases hh g hg2 with h | ⟨x, hx, hxf⟩ | hw
+        · exact Or.inl h
+        · by_cases e : x = j
           · subst e; subst hxf; exact Or.inl hd
-          · exact Or.inr ⟨x, mem_erase_ne hx e, hxf⟩
+          · exact Or.inr (Or.inl ⟨x, mem_erase_ne hx e, hxf⟩)
+        · exact Or.inr (Or.inr hw)
       · cases h
         refine ⟨hc, ?_⟩
         intro g hg2
-        cases hh g hg2 with
-        | inl h => exact Or.inl h
-        | inr hj =>
-          obtain ⟨x, hx, hxf⟩ := hj
-          by_cases e : x = j
-          · subst e; exact Or.inr ⟨_, List.mem_append_right _ (List.mem_singleton.mpr rfl), hxf⟩
-          · exact Or.inr ⟨x, List.mem_append_left _ (mem_erase_ne hx e), hxf⟩
+        rcases hh g hg2 with h | ⟨x, hx, hxf⟩ | ⟨nj, hnj, _⟩
+        · exact Or.inl h
+        · by_cases e : x = j
+          · subst e; exact Or.inr (Or.inr ⟨_, rfl, hxf⟩)
+          · exact Or.inr (Or.inl ⟨x, mem_erase_ne hx e, hxf⟩)
+        · rw [hnone] at hnj; cases hnj
+    · cases h
+  | submitApp =>
+    simp only [step] at h
+    split at h
+    · rename_i nj hnj
+      cases h
+      refine ⟨hc, ?_⟩
+      intro g hg2
+      rcases hh g hg2 with h | ⟨x, hx, hxf⟩ | ⟨nj', hnj', hf'⟩
+      · exact Or.inl h
+      · exact Or.inr (Or.inl ⟨x, List.mem_append_left _ hx, hxf⟩)
+      · rw [hnj] at hnj'; cases hnj'
+        exact Or.inr (Or.inl ⟨nj, List.mem_append_right _ (List.mem_singleton.mpr rfl), hf'⟩)
     · cases h
   | discard j =>
     simp only [step] at h
@@ -233,13 +248,12 @@ theorem held_step (s : St) (a : Act) (s' : St) (hg : NoClientCancel a) (hi : Hel
     · cases h
       refine ⟨hc, ?_⟩
       intro g hg2
-      cases hh g hg2 with
-      | inl h => exact Or.inl (by simp only; split <;> simp [h])
-      | inr hj =>
-        obtain ⟨x, hx, hxf⟩ := hj
-        by_cases e : x = j
+      rcases hh g hg2 with h | ⟨x, hx, hxf⟩ | hw
+      · exact Or.inl (by simp only; split <;> simp [h])
+      · by_cases e : x = j
         · subst e; subst hxf; exact Or.inl (by simp only; split <;> simp_all)
-        · exact Or.inr ⟨x, mem_erase_ne hx e, hxf⟩
+        · exact Or.inr (Or.inl ⟨x, mem_erase_ne hx e, hxf⟩)
+      · exact Or.inr (Or.inr hw)
     · cases h
   | ddone d c =>
     simp only [step] at h
@@ -254,13 +268,12 @@ theorem held_step (s : St) (a : Act) (s' : St) (hg : NoClientCancel a) (hi : Hel
       · cases h
         refine ⟨hc, ?_⟩
         intro g hg2
-        cases hh g hg2 with
-        | inl h => exact Or.inl (by simp only [nohold, Bool.false_or]; split <;> simp [h])
-        | inr hj =>
-          obtain ⟨x, hx, hxf⟩ := hj
-          by_cases e : x = j
+        rcases hh g hg2 with h | ⟨x, hx, hxf⟩ | hw
+        · exact Or.inl (by simp only [nohold, Bool.false_or]; split <;> simp [h])
+        · by_cases e : x = j
           · subst e; subst hxf; exact Or.inl (by simp only [nohold, Bool.false_or]; split <;> simp_all)
-          · exact Or.inr ⟨x, mem_erase_ne hx e, hxf⟩
+          · exact Or.inr (Or.inl ⟨x, mem_erase_ne hx e, hxf⟩)
+        · exact Or.inr (Or.inr hw)
       · cases h
     · cases h
   | cbPolicy d r =>
@@ -279,13 +292,12 @@ theorem held_step (s : St) (a : Act) (s' : St) (hg : NoClientCancel a) (hi : Hel
       cases h
       refine ⟨hc, ?_⟩
       intro g hg2
-      cases hh g hg2 with
-      | inl h => exact Or.inl h
-      | inr hj =>
-        obtain ⟨x, hx, hxf⟩ := hj
-        by_cases e : x = j
-        · subst e; exact Or.inr ⟨_, List.mem_append_right _ (List.mem_singleton.mpr rfl), hxf⟩
-        · exact Or.inr ⟨x, List.mem_append_left _ (mem_erase_ne hx e), hxf⟩
+      rcases hh g hg2 with h | ⟨x, hx, hxf⟩ | hw
+      · exact Or.inl h
+      · by_cases e : x = j
+        · subst e; exact Or.inr (Or.inl ⟨_, List.mem_append_right _ (List.mem_singleton.mpr rfl), hxf⟩)
+        · exact Or.inr (Or.inl ⟨x, List.mem_append_left _ (mem_erase_ne hx e), hxf⟩)
+      · exact Or.inr (Or.inr hw)
     · cases h
   | cbFinal d =>
     simp only [step] at h
@@ -294,13 +306,12 @@ theorem held_step (s : St) (a : Act) (s' : St) (hg : NoClientCancel a) (hi : Hel
       cases h
       refine ⟨hc, ?_⟩
       intro g hg2
-      cases hh g hg2 with
-      | inl h => exact Or.inl (by simp only; split <;> simp [h])
-      | inr hj =>
-        obtain ⟨x, hx, hxf⟩ := hj
-        by_cases e : x = j
+      rcases hh g hg2 with h | ⟨x, hx, hxf⟩ | hw
+      · exact Or.inl (by simp only; split <;> simp [h])
+      · by_cases e : x = j
         · subst e; subst hxf; exact Or.inl (by simp only; split <;> simp_all)
-        · exact Or.inr ⟨x, mem_erase_ne hx e, hxf⟩
+        · exact Or.inr (Or.inl ⟨x, mem_erase_ne hx e, hxf⟩)
+      · exact Or.inr (Or.inr hw)
     · cases h
   | cancelDel f b =>
     simp only [step, hc, List.lookup_nil] at h
@@ -315,13 +326,14 @@ theorem held_step (s : St) (a : Act) (s' : St) (hg : NoClientCancel a) (hi : Hel
     · cases h
 
 /-- (retry: no future silently dropped — partial: runs without a concurrent `cancel()` on the retry futures themselves)
-Every future handed out by `submit()` is terminal or still has its job in the job list, through any interleaving of
+Every future handed out by `submit()` is terminal, or still has its job in the job list, or is the future whose job the
+submit thread is handing to the delegate right now (between the two sections of `_submit_now`), through any interleaving of
 submissions, attempts, policy answers, back-off and delegates cancelled BY SOMEONE ELSE (`ddone d true` followed by the
 callback `cbCancelled d`, which makes the future terminal).  With client cancels in play the same statement is checked
 on real executions by the replay and the lost-future monitor (the full invariant needs the link between a vetoed
 cancel and its delegate; see DESIGN.md). -/
 theorem C03_retry_no_lost_future_partial (as : List Act) (hg : ∀ a ∈ as, NoClientCancel a) (s : St) (hrun : run init as = some s) :
-    ∀ f ∈ s.submitted, f ∈ s.done ∨ ∃ j ∈ s.jobs, j.fut = f :=
+    ∀ f ∈ s.submitted, f ∈ s.done ∨ (∃ j ∈ s.jobs, j.fut = f) ∨ (∃ nj, s.submitting = some nj ∧ nj.fut = f) :=
   (invariant_run_guarded step NoClientCancel Held (fun m a m' hga hi hst => held_step m a m' hga hi hst) init held_init as hg s hrun).2
 
 end MoreExec.Retry
